@@ -76,7 +76,8 @@ def form_gen(rng, tid, boundary):
             absent_as_empty = rng.random() < 0.5
             files = []
             for i in range(k):
-                fn = rng.choice(['a.bin', 'pic 1.png', 'ü.txt', 'x' * 40 + '.dat', 'no-ext', '1', 'report; final.pdf', 'x;name=note;.pdf', 'a=b; c.txt', "it's (1).txt"])      # a quoted-string may hold ';' and '='
+                fn = rng.choice(['a.bin', 'pic 1.png', 'ü.txt', 'x' * 40 + '.dat', 'no-ext', '1', 'report; final.pdf', 'x;name=note;.pdf', 'a=b; c.txt', "it's (1).txt",
+                                'chapter1/1.txt', 'C:\\fakepath\\cover.png', 'drafts/', '../up.txt', '/abs', 'a\\', '.hidden', 'trailing.', 'UPPER.TXT', 'dir.d/x.tar.gz'])      # a quoted-string may hold ';' and '='; a filename is delivered as sent (path separators included: what to do with them is the application's call)
                 files.append((fn + str(i) if ty == 'files' else fn, rng.choice(MIMES), content_gen(rng, boundary)))
             if k == 0:
                 if ty == 'optFile' or (ty == 'files'):
